@@ -16,6 +16,9 @@
 (* state variable `held` remembers, per event, the canvas a rendering returned; event "held"  *)
 (* measures that canvas again after the later renderings: a canvas that was handed out is     *)
 (* never changed by rendering something else (clause held_canvas_keeps_its_size).             *)
+(* Event "layout" (after the root's rendering) records the widths a Columns of the tree gave   *)
+(* its children in that rendering, judged by the documented sharing contract                   *)
+(* WidgetTreeOps!ColumnsLayoutOK (clause columns_share_out_the_requested_columns).             *)
 EXTENDS WidgetTreeOps, Json, IOUtils, TLC
 
 Traces == JsonDeserialize(IOEnv.TRACE_FILE)
@@ -35,12 +38,22 @@ InDomain(e) == CASE e.mode = "box" -> e.c >= 1 /\ e.r >= 1
                  [] e.mode = "flow" -> e.c >= 1
                  [] e.mode = "fixed" -> e.calc_exc # "" \/ (e.pc >= 1 /\ e.pr >= 1)
 
+\* calc_again: <<when, cols, rows>> for every later call of rows() / pack() at the size of the event ("after" the rendering,
+\* after "inval"idating the widget); <<when, -1, -1>> when the call raised
+AgainWhen == {"after", "inval"}
+AgainAgrees(e, cols, rows) == \A i \in 1..Len(e.calc_again) : e.calc_again[i][1] \in AgainWhen /\ e.calc_again[i][2] = cols /\ e.calc_again[i][3] = rows
+ASSUME /\ AgainAgrees([calc_again |-> << <<"after", 4, 2>>, <<"inval", 4, 2>> >>], 4, 2) /\ AgainAgrees([calc_again |-> <<>>], 4, 2)
+       /\ ~AgainAgrees([calc_again |-> << <<"after", 4, 2>>, <<"inval", 4, 3>> >>], 4, 2) /\ ~AgainAgrees([calc_again |-> << <<"inval", -1, -1>> >>], 4, 2)
+
 RenderVerdict(e) ==
   IF ~InDomain(e) THEN "-"
   ELSE IF e.exc # "" THEN "render_never_raises"
   ELSE IF e.mode = "box" /\ (e.cc # e.c \/ e.cr # e.r) THEN "box_exact_size"
   ELSE IF e.mode = "flow" /\ (e.calc_exc # "" \/ e.cr # e.rows_call \/ (e.cr > 0 /\ e.cc # e.c)) THEN "flow_cols_and_rows_equal_rows_call"
   ELSE IF e.mode = "fixed" /\ (e.calc_exc # "" \/ e.cc # e.pc \/ e.cr # e.pr) THEN "fixed_equals_pack"
+  \* the widget's own calculation asked again in another order (after the rendering, after _invalidate()) reports the same size
+  ELSE IF e.mode = "flow" /\ ~AgainAgrees(e, e.c, e.cr) THEN "flow_cols_and_rows_equal_rows_call"
+  ELSE IF e.mode = "fixed" /\ ~AgainAgrees(e, e.cc, e.cr) THEN "fixed_equals_pack"
   ELSE IF Len(e.content) # e.cr THEN "row_count_equals_rows"
   ELSE IF \E i \in 1..Len(e.content) : Width(e.content[i]) # e.cc THEN "every_row_width_equals_cols"
   ELSE IF Len(e.cur) = 2 /\ ~(e.cur[1] >= 0 /\ e.cur[1] < e.cc /\ e.cur[2] >= 0 /\ e.cur[2] < e.cr) THEN "cursor_inside"
@@ -69,12 +82,21 @@ HeldVerdict(e, hs) ==
     THEN "held_canvas_keeps_its_size"
   ELSE "-"
 
+\* what a Columns of the history gave its children in the rendering of the root (event "layout": path of the Columns, the
+\* columns it was given, the columns of the canvas of each child, 0 = not shown): the documented contract of WidgetTreeOps
+LayoutVerdict(tr, e) ==
+  LET t == Sub(tr.term, e.path) IN
+  IF t.k # "Columns" \/ Len(e.w) # Len(t.c) THEN "no_action"
+  ELSE IF ~ColumnsLayoutOK(t.o, e.w, e.c) THEN "columns_share_out_the_requested_columns"
+  ELSE "-"
+
 Skipped(e) == "skip" \in DOMAIN e /\ e.skip = 1     \* continuation after a known finding: already reported, only updates the state
 
 Verdict(tr, e, hs) ==
   IF Skipped(e) THEN "-"
   ELSE IF e.t = "frame" THEN FrameVerdict(tr, e)
   ELSE IF e.t = "held" THEN HeldVerdict(e, hs)
+  ELSE IF e.t = "layout" THEN LayoutVerdict(tr, e)
   ELSE IF e.t = "sizing" THEN (IF SetOf(e.got) # Ann(tr.term).s THEN "div_sizing_as_documented" ELSE "-")
   ELSE IF e.t = "render" THEN
          LET v == RenderVerdict(e) IN
@@ -85,7 +107,7 @@ Verdict(tr, e, hs) ==
 Step == /\ ok /\ l < Len(Traces[tid].ev) /\ l' = l + 1 /\ tid' = tid
         /\ LET e == Traces[tid].ev[l + 1]
                v == Verdict(Traces[tid], e, held)
-           IN why' = v /\ ok' = (v = "-") /\ held' = (IF e.t \in {"frame", "held"} THEN Append(held, CanvasOf(e)) ELSE held)   \* a history holds only these events
+           IN why' = v /\ ok' = (v = "-") /\ held' = (IF e.t \in {"frame", "held", "layout"} THEN Append(held, CanvasOf(e)) ELSE held)   \* a history holds only these events (held[i] belongs to event i)
 Spec == Init /\ [][Step]_vars
 Report == ok \/ PrintT(<<"REJECT", tid, l, why>>)
 ===============================================================================
